@@ -59,6 +59,7 @@ class Path:
         self.defs = []      # ('div', q, x, y) / ('sqrt', s, x) / ('fn', sym, name, arg)
         self.obl = []       # (label, cond, n_pc, n_extra)
         self.calls = []     # records of hooked calls (callee replaced by its contract)
+        self.call_defs = []  # what the hooked callees really compute; used only to search replayable counter-models
         self.notes = []
 
     def branch(self, cond):
@@ -67,13 +68,20 @@ class Path:
             return True
         if z3.is_false(cond):
             return False
+        # a condition already decided on this path is not decided again (cheap syntactic pruning)
+        ncond = _simp(z3.Not(cond))
+        for c in self.pc:
+            if c.eq(cond):
+                return True
+            if c.eq(ncond):
+                return False
         if self.i < len(self.decisions):
             d = self.decisions[self.i]
         else:
             d = True
             self.decisions.append(True)
         self.i += 1
-        self.pc.append(cond if d else z3.Not(cond))
+        self.pc.append(cond if d else ncond)
         return d
 
     def oblige(self, label, cond):
@@ -911,7 +919,7 @@ MATH_MODELS.update({
 })
 
 
-def havoc(name, shape, assume=None, requires=None):
+def havoc(name, shape, assume=None, requires=None, define=None):
     """Hook replacing a callee by (part of) its contract at the call site: the result is a fresh value built by
     `shape(fresh, *args, **kw)`; `requires(*args)` becomes an obligation of the caller and `assume(result, *args)`
     (facts from the callee's proved postcondition) a hypothesis.  Every application is recorded in path.calls."""
@@ -926,13 +934,16 @@ def havoc(name, shape, assume=None, requires=None):
         if assume is not None:
             for fact in assume(res, *args, **kw):
                 it.p.extra.append(_b(fact))
+        if define is not None:
+            for fact in define(res, *args, **kw):
+                it.p.call_defs.append(_b(fact))
         it.p.calls.append({'callee': name, 'args': list(args), 'kw': dict(kw), 'result': res})
         return res
     hook.callee_name = name
     return hook
 
 
-def explore(run, max_paths=400):
+def explore(run, max_paths=1500):
     """Enumerate the paths of `run(interp)` by re-execution with decision prefixes.
     Returns a list of (Path, outcome) with outcome = ('ret', value) | ('raise', exc) | ('outside', msg)."""
     todo = [[]]
